@@ -49,7 +49,7 @@ for d in sorted(glob.glob("/verif/seeded/*/")):
                 for c in meta.get("also_check_thorough", []):
                     now["thorough"][c] = check(c, "thorough")
     finally:
-        sh("git checkout -- . && git clean -fdq", cwd="/repo")
+        sh("git reset -q && git checkout -- . && git clean -fdq", cwd="/repo")
     assert clean(), "/repo not clean after " + sid
     meta["detection"]["now"] = now
     meta["detection"]["now_evaluated_against"] = {
